@@ -386,15 +386,92 @@ def matrix_free(rep, tier, timeout):
     run_obligations(rep, "mux/demux index maps", obs, timeout, family=lambda ob: "MPhys: " + ob.meta["family"], cut_threshold=0, replay=idx_rp)
 
 
+def solver_structure(rep, tier):
+    """Every group of the real models whose subsystems feed back into each other carries a linear solver that solves the
+    cycle (the framework's default, LinearRunOnce, does one sweep and returns frozen-loop totals).  Ground check on the set-up
+    models, confirmed by comparing the real totals with central differences of the converged analysis."""
+    import warnings
+
+    import networkx as nx
+    import openmdao.api as om
+    from props import groups
+
+    s = K.surface(2, 3, True)
+    s.update({"thickness_cp": np.array([0.1, 0.2]), "twist_cp": np.zeros(2)})
+    models = [("AerostructPoint", dict(compressible=False)), ("AerostructPoint(compressible)", dict(compressible=True))]
+    if tier != "quick":
+        models.append(("AerostructPoint(rotational)", dict(rotational=True)))
+    for label, kw in models:
+        prob = groups.aerostruct_problem(s, **kw)
+        rep.encode(type(prob.model._get_subsystem("AS_point_0")))
+        for g in prob.model.system_iter(include_self=True, recurse=True, typ=om.Group):
+            graph = g.compute_sys_graph(comps_only=False)
+            cyc = [sorted(c) for c in nx.strongly_connected_components(graph) if len(c) > 1]
+            if not cyc:
+                continue
+            rep.counts["obligations"] += 1
+            rep.counts["nontrivial"] += 1
+            name = type(g.linear_solver).__name__
+            rep.groups.append({"case": "linear solver of a group with a feedback cycle: %s %s" % (label, g.pathname), "cycle": cyc, "linear_solver": name})
+            if isinstance(g.linear_solver, om.LinearRunOnce):
+                rep.counts["candidates"] += 1
+                bad, what = replay_totals(s, kw)
+                if bad:
+                    rep.violation("%s: the coupled group's linear solver solves its feedback cycle" % label,
+                                  "group %s (cycle %s) has linear solver %s :: %s" % (g.pathname, cyc[0], name, what), {"group": g.pathname, "model": label, "structure": True})
+                else:
+                    rep.not_reproduced.append({"id": "%s %s" % (label, g.pathname), "why": what})
+            else:
+                rep.counts["discharged"] += 1
+        rep.log("%-52s groups with feedback cycles checked" % ("linear solvers: " + label))
+
+
+def replay_totals(s, kw):
+    """the real model on floats: total derivatives against central differences of the converged analysis"""
+    import warnings
+
+    from props import groups
+
+    def build(alpha):
+        p = groups.aerostruct_problem(s, vals={"alpha": alpha, "Mach_number": 0.5, "v": 150.0, "rho": 0.9, "W0": 2000.0, "R": 2.0e6}, **kw)
+        cpl = p.model._get_subsystem("AS_point_0.coupled")
+        cpl.nonlinear_solver.options["atol"] = 1e-12
+        cpl.nonlinear_solver.options["rtol"] = 1e-14
+        cpl.nonlinear_solver.options["maxiter"] = 200
+        cpl.nonlinear_solver.options["iprint"] = -1
+        with warnings.catch_warnings():
+            warnings.simplefilter("ignore")
+            p.run_model()
+        return p
+
+    p0 = build(4.0)
+    ofs = ["AS_point_0.CL", "AS_point_0.wing_perf.failure", "AS_point_0.fuelburn"]
+    with warnings.catch_warnings():
+        warnings.simplefilter("ignore")
+        tot = p0.compute_totals(of=ofs, wrt=["alpha"])
+    h = 1e-4
+    pp, pm = build(4.0 + h), build(4.0 - h)
+    worst = (0.0, "")
+    for o in ofs:
+        fd = (float(np.ravel(pp.get_val(o))[0]) - float(np.ravel(pm.get_val(o))[0])) / (2 * h)
+        an = float(np.ravel(tot[(o, "alpha")])[0])
+        e = abs(an - fd) / max(abs(fd), abs(an), 1e-12)
+        if e > worst[0]:
+            worst = (e, "d %s / d alpha: total %.8g, central difference of the converged analysis %.8g" % (o, an, fd))
+    return worst[0] > 1e-4, worst[1] or "totals agree with central differences"
+
+
 def run(tier, seed, only=None):
     rep = report.Report(PID, tier, seed)
     timeout = 20.0 if tier == "quick" else 60.0
     if not only or "solve" in only:
         implicit_solves(rep, tier, timeout)
+    if not only or "structure" in only:
+        solver_structure(rep, tier)
     if not only or "mphys" in only:
         matrix_free(rep, tier, timeout)
     rep.stubs.add("scipy lu_factor/lu_solve/splu -> contract stub: solve returns fresh x with A x = b (or A^T x = b) as hypothesis")
-    rep.assumptions = ["OpenMDAO composes partials correctly and its Direct/LinearBlockGS/Krylov solvers converge to the same solution (trusted)",
+    rep.assumptions = ["OpenMDAO composes partials correctly and its Direct/LinearBlockGS/Krylov solvers converge to the same solution (trusted); that a solver able to solve the cycle is attached is checked",
                        "cs/fd approximated partials are accurate (not checked)", "C01 (every analytic partial) is a premise", "real arithmetic"]
     rep.bounds = {"FEM": "ny 2-3", "SolveMatrix": "system size 2 (quick), 5 (thorough)"}
     return rep.finish("C02 (reduced): implicit components report the matrix they solve with; solve_linear satisfies the forward/transposed system "
